@@ -33,7 +33,6 @@ ASSUMPTIONS = [
     "Python's str() of floats, Decimals, enum members, deques, frozensets is an oracle table per case (Render); theorems that need a property of it state it as a hypothesis",
     "hash(str) collisions between different strings are ignored: the correspondence compares str(x), the oracle compares hash(x)",
     "independence of copy.copy is not claimed by the property (it shares the wrappers, which stay bound to the original)",
-    "_none_fields is not part of the pickled state (__setstate__ restores an empty set): pickle_eq assumes it empty",
     "nested Structure values are compared by the core pyEq (same attribute names, values ==), i.e. Structure.__eq__ without the default-for-unset-field reading; top-level instances use the full reading",
 ]
 TRUSTED_EXTRA = [
@@ -103,7 +102,7 @@ def _has_live_extras(case, j, tbl=None):
 
 def _stale_none(state):
     """a field that is recorded in _none_fields while __dict__ still holds a value for it"""
-    return bool(set(state.get("nones") or []) & {k for k, _ in state["o"][1]})
+    return set(state.get("nones") or []) & {k for k, _ in state["o"][1]}
 
 
 def judge(case, impl, model):
@@ -127,8 +126,11 @@ def judge(case, impl, model):
                 fails.append(("ne-not-negation", f"a != b and a == b are both {eq[i][j]}: a={show(i)} b={show(j)}"))
             if eq[i][j] != impl["fieldwise"][i][j]:
                 which = "eq-but-fields-differ" if eq[i][j] else "fields-equal-but-ne"
-                if not eq[i][j] and (_stale_none(impl["states"][i]) or _stale_none(impl["states"][j])):
-                    which = "none-recorded-over-stored-value"
+                stale = _stale_none(impl["states"][i]) | _stale_none(impl["states"][j])
+                if not eq[i][j] and stale:
+                    imm = set(case["cls"].get("immFields") or []) | {
+                        nm for nm, fd in case["cls"]["fields"] if fd.get("k") in ("setAny", "setOf") and fd.get("imm")}
+                    which = "none-recorded-over-immutable-field" if stale <= imm else "none-recorded-over-stored-value"
                 fails.append((f"eq-vs-readback:{which}", f"a == b is {eq[i][j]} but field-wise equality of the values read back is "
                               f"{impl['fieldwise'][i][j]}: a={show(i)} b={show(j)}"))
             if i == j:
